@@ -189,8 +189,8 @@ void h_add_searchpath(void)
 		CHECK("C17", cfgv_dup_fail || rc == CFG_SUCCESS, "adding a directory succeeds (no allocation failure in this unit)");
 #endif
 		if (rc == CFG_SUCCESS) {
-			CHECK("C17", cfg.path != NULL && cfg.path != before && cfg.path->next == before, "a new directory is put in front of the list (lookups walk it oldest first)");
-			CHECK("C17,C16", cfg.path->dir != NULL && cfg.path->dir != in_name && strcmp(cfg.path->dir, in_name) == 0, "the node holds a private, tilde-expanded copy of the directory");
+			CHECK("C17,C13", cfg.path != NULL && cfg.path != before && cfg.path->next == before, "a new directory is put in front of the list (lookups walk it oldest first)");
+			CHECK("C17,C16,C13", cfg.path->dir != NULL && cfg.path->dir != in_name && strcmp(cfg.path->dir, in_name) == 0, "the node holds a private, tilde-expanded copy of the directory");
 			free(cfg.path->dir); free(cfg.path);
 		} else
 			CHECK("C17,C18", cfg.path == before, "a failed addition leaves the list as it was");
